@@ -242,7 +242,8 @@ def cubic_spline(
         b = inputs_c[quadratic_mask]
         c = inputs_d[quadratic_mask] - inputs[quadratic_mask]
         # Cancellation-free form of (-b + sqrt(b^2 - 4ac)) / (2a); also valid when a == 0.
-        alpha = (-2 * c) / (b + torch.sqrt(b.pow(2) - 4 * a * c))
+        # At a bin edge with (almost) zero slope the discriminant is zero up to rounding.
+        alpha = (-2 * c) / (b + torch.sqrt(torch.clamp(b.pow(2) - 4 * a * c, min=0)))
         outputs[quadratic_mask] = alpha + input_left_cumwidths[quadratic_mask]
 
         # The root lies in the selected bin; rounding must not push it (and the derivative below) outside.
